@@ -134,6 +134,38 @@ func init() {
 		finish(x, n, ss, "")
 	})
 
+	// S-commits-before-proposal: the follower is shown the three COMMITs of height 1 FIRST (the PREPAREs are lost), the
+	// PREPREPARE LAST, then the same for height 2 (whose messages may sit in the future cache while height 1 is open). The
+	// commit happens inside the handler of the proposal; the next round must start after it, callbacks stay ordered, and
+	// with every message delivered and no expiry both heights are decided (C11: COMMITs count whenever they arrive).
+	registerBoth("S-commits-before-proposal", []string{"C11", "C13"}, 1, 2, 3, func(x *X, cancel bool) {
+		n := newNode(x, 1)
+		n.Boot()
+		m1, m2 := n.peerMsgs(1, "B1"), n.peerMsgs(2, "B2") // [PP, P, C, C, C]
+		order := func(m []*interfaces.ConsensusRawMessage) []*interfaces.ConsensusRawMessage {
+			k := len(m)
+			return []*interfaces.ConsensusRawMessage{m[k-3], m[k-2], m[k-1], m[0]}
+		}
+		s := x.S
+		fed := 0
+		s.Thread("feeder", func() {
+			for _, m := range append(order(m1), order(m2)...) {
+				n.M.HandleConsensusMessage(n.Ctx, m)
+				fed++
+			}
+		})
+		var ss []sample
+		observer(n, &ss, 2)
+		addCancel(n, cancel)
+		if !s.Run(20000) {
+			x.Bad("C16", "livelock", "step horizon reached")
+		}
+		if !cancel && fed == 8 && s.Fires == 0 && s.Quiescent() && len(n.Commits) != 2 {
+			x.Bad("C11", "commit-quorum-not-acted-upon", "the proposal and three COMMITs of heights 1 and 2 were delivered (COMMITs first), no timeout: commits=%v (events %v)", n.Commits, tail(n.Events, 10))
+		}
+		finish(x, n, ss, "")
+	})
+
 	// S-heavy-leader: weights 7,1,1,1: the node under test is the first leader and a quorum by itself, so it decides a
 	// height inside the very step that proposes it (inside the construction of that height's term) and goes on to the
 	// next height at once. The consumer's commit callback fails at height 3, which ends the chain. Then the light
